@@ -942,10 +942,15 @@ class ktensor:
             i_min = np.argmin(sum_of_prods) + 1  # note range above starts at 1
             return i_min
 
-        i_split = min_split_dims(self.shape)
-        data = (
-            ttb.khatrirao(*self.factor_matrices[:i_split], reverse=True) * self.weights
-        ) @ ttb.khatrirao(*self.factor_matrices[i_split:], reverse=True).T
+        if self.ndims == 1:
+            # Nothing to split: the tensor is the weighted sum of the columns
+            data = self.factor_matrices[0] @ self.weights
+        else:
+            i_split = min_split_dims(self.shape)
+            data = (
+                ttb.khatrirao(*self.factor_matrices[:i_split], reverse=True)
+                * self.weights
+            ) @ ttb.khatrirao(*self.factor_matrices[i_split:], reverse=True).T
         # Copy needed to ensure F order. Transpose above means both elements are
         # different layout. If originally in C order can save on this copy.
         return ttb.tensor(data, self.shape, copy=True)
